@@ -77,8 +77,7 @@ def methods():
 
 
 # after a vanish these may return a value instead of raising NoSuchProcess
-AFTER_GONE_VALUE_OK = {"create_time", "exe", "is_running", "children",
-                       "children_recursive", "str"}
+AFTER_GONE_VALUE_OK = {"create_time", "exe", "is_running", "str"}
 
 
 def strategy(tier):
@@ -269,7 +268,10 @@ def run_case(case):
                                   "access": f"{entry['op']} {entry.get('path')}", "outcome": cls}
                 # ---- once gone, every later query raises NoSuchProcess
                 if kind == "vanish" and kk in requery and PID not in k.procs:
-                    for m2, fn2 in meths:
+                    # every method gets to be the first question asked after
+                    # the death (earlier answers may latch "gone" on the object)
+                    rot = (kk + sum(case["requery_k"]) + len(mname)) % len(meths)
+                    for m2, fn2 in meths[rot:] + meths[:rot]:
                         v2, e2 = call(p, fn2)
                         runs += 1
                         c2 = classify(e2)
